@@ -14,6 +14,8 @@ token spans.  Model: `Abra.Lex.tokenize` (character positions, as the lexer scan
 * `C33_byte_span` — the byte offsets handed out: `lo' < hi' ≤ |source|` in bytes, both are the byte
   length of a whole-character prefix (char boundaries), and `hi' - lo'` is the UTF-8 length of the
   token's characters — also with non-ASCII text anywhere in the file.
+* `C33_eof_position` — the stand-in position of `Parser::eof()` (diagnostics raised after the parser
+  has stepped past the `Eof` token) is a character boundary within the source.
 -/
 namespace Abra.Lex
 
@@ -177,6 +179,37 @@ theorem C33_token_byte_span (src : List Char) (t : Token) (ht : t ∈ (tokenize 
     obtain ⟨_, _, c, d, e⟩ := C33_byte_span src t.lo t.hi a b
     exact ⟨c, d, e⟩
   · simp only [List.mem_singleton] at h; subst h; exact absurd rfl hk
+
+/-- the stand-in position `parse_file` gives `Parser::eof()` (used when the parser has stepped past
+    the lexer's `Eof` token): the byte offset of the last character of the source (0 for the empty
+    source) — `source.char_indices().next_back().map_or(0, |(i, _)| i)` -/
+def parserEofPos (src : List Char) : Nat := bytePos src (src.length - 1)
+
+/-- **End-of-input position.** The position used for diagnostics raised past the end of the token
+    list is the byte length of a whole-character prefix of the source (a character boundary) and lies
+    within the source — strictly before its end when the source is not empty, whatever the width of
+    the last character.  (That `parse_file` computes exactly this number is checked by the
+    correspondence: files ending in 1- to 4-byte characters where more input is required.) -/
+theorem C33_eof_position (src : List Char) :
+    parserEofPos src = utf8Len (src.take (src.length - 1)) ∧ parserEofPos src ≤ utf8Len src ∧
+      (src ≠ [] → parserEofPos src < utf8Len src) := by
+  have hwhole : utf8Len src = utf8Len (src.take (src.length - 1)) + utf8Len (src.drop (src.length - 1)) := by
+    rw [← utf8Len_append, List.take_append_drop]
+  refine ⟨rfl, ?_, ?_⟩
+  · show utf8Len (src.take (src.length - 1)) ≤ utf8Len src
+    omega
+  · intro hne
+    have hd : src.drop (src.length - 1) ≠ [] := by
+      intro h
+      have := congrArg List.length h
+      simp only [List.length_drop, List.length_nil] at this
+      have : 0 < src.length := List.length_pos_iff.mpr hne
+      omega
+    have := utf8Len_pos_of_ne_nil hd
+    show utf8Len (src.take (src.length - 1)) < utf8Len src
+    omega
+
+example : parserEofPos "fn // café".toList = 9 ∧ utf8Len "fn // café".toList = 11 := by decide +kernel
 
 -- non-vacuity / worked instance: `é` (2 bytes) and `漢` (3 bytes) before the token `$`-position
 example : (tokenizeBytes "let s = \"é漢\" + x".toList).1.map (fun t => (t.lo, t.hi)) =
